@@ -50,6 +50,7 @@ caller's config is compared modulo a 'text' slot that was absent before and is N
 import copy
 import glob
 import json
+import multiprocessing
 import os
 
 import common
@@ -381,7 +382,12 @@ def observe_expand(tb, case, ty, syn, expected, installed, patches, fails):
     for sec in SECTIONS:
         flat[sec] = {k: v for k, (v, i, pat) in expected[sec].items()}
     tb.uninstall()           # the flattened configuration runs on the unpatched tables
-    ref = outcome(lambda: emmet.expand(abbr, flat, {}))
+    fk = (abbr, hash(strict(flat)))
+    if fk not in _FLAT_CACHE:
+        if len(_FLAT_CACHE) > 2000:
+            _FLAT_CACHE.clear()
+        _FLAT_CACHE[fk] = outcome(lambda: emmet.expand(abbr, copy.deepcopy(flat), {}))
+    ref = _FLAT_CACHE[fk]
     if out != ref:
         fails.append(('expand', 'expand(%r) with the layered configuration gives %r, with the flattened effective '
                       'configuration %r' % (abbr, out, ref)))
@@ -643,95 +649,132 @@ def fail_key(case, clause):
                                   ''.join(map(str, case.get('bits', []))) or case['kind'])
 
 
-def judge(ctx, tb, case, res):
-    """Report oracle failures of one case; -> True when the property failed on it."""
-    if not res['failures']:
-        return False
-    clause, text = res['failures'][0]
-    ctx.property_failure(fail_key(case, clause), '%s: %s' % (clause, text),
-                         {'component': 'config', 'case': case, 'why': [t for _, t in res['failures'][:4]]})
-    return True
+# ---- workers (process pool): implementation + oracle + wires of one chunk of cases
+_TB = None
+_FLAT_CACHE = {}
 
 
-def run_cases(ctx, tb, model, cases, label):
-    rng = ctx.rng
-    n_dis = 0
-    n_cmp = 0
-    n_spec = 0
+def _tables():
+    global _TB
+    if _TB is None:
+        _TB = Tables()
+    return _TB
+
+
+def summarize(tb, case, res, rng, with_model):
+    """Picklable summary of one observed case (values replaced by ids, wires for the model prepared)."""
+    kind = case['kind']
+    ty, syn = resolved_names(tb, case)
+    sm = {'failures': res['failures'][:4], 'fatal': res['fatal'], 'expand': res['expand'], 'patterns': res['patterns'],
+          'cell_pat': None, 'sample': None, 'unknown_snap': None, 'model': None, 'spec': []}
+    if kind.startswith('cell'):
+        sec, key = case['sec'], case['key']
+        e = (res['expected'] or {}).get(sec, {}).get(key)
+        sm['cell_pat'] = e[2] if e else '000000'
+        if res['obs'] is not None:
+            sm['sample'] = {'type': res['obs']['type'], 'syntax': res['obs']['syntax'],
+                            '%s[%r]' % (sec, key): repr(res['obs']['sections'][sec].get(key, '<absent>'))
+                            if isinstance(res['obs']['sections'][sec], dict) else '<not a dict>'}
+            if case.get('class') == 'unknown' and not case['bits'][4]:
+                sm['unknown_snap'] = hash(strict(res['obs']['sections']))
+    if with_model and tb.ids is not None:
+        ids = case_ids(tb, case)
+        if kind == 'cell-fresh':
+            sec = case['sec']
+            i = impl_ids(ids, res['obs'], [sec])
+            sm['model'] = ('cell', wire_cell(case), [sec], i['sections'][sec] if i else None)
+        else:
+            secs = [case['sec']] if case.get('sec') else list(SECTIONS)
+            w = wire_init(tb, case, ids, secs)
+            sm['model'] = ('init', w, secs, impl_ids(ids, res['obs'], secs))
+        if kind in ('natural', 'random', 'corpus') and res['expected']:
+            # the SPEC's own answer (spec_lookup) for sampled keys, against the oracle
+            for sec in SECTIONS:
+                ks = sorted(res['expected'][sec]) + ['zz.undefined']
+                for key in rng.sample(ks, min(2, len(ks))):
+                    e = res['expected'][sec].get(key)
+                    sm['spec'].append((sec, key, wire_spec(tb, case, ids, ty, syn, sec, key),
+                                       [0] if e is None else [1, ids.id_of(e[0])]))
+    return sm
+
+
+def worker(arg):
+    cases, seed, with_model = arg
+    import random
+    rng = random.Random(seed)
+    tb = _tables()
+    out = []
+    for case in cases:
+        res = observe(tb, case)
+        out.append(summarize(tb, case, res, rng, with_model))
+        if res['fatal']:
+            tb.restore()
+    return out
+
+
+def run_cases(ctx, tb, model, cases, label, pool):
+    if not cases:
+        return
+    size = max(20, min(400, len(cases) // (4 * common.NPROC) + 1))
+    chunks = [cases[i:i + size] for i in range(0, len(cases), size)]
+    args = [(ch, ctx.rng.randrange(1 << 30), model is not None) for ch in chunks]
+    sums = [sm for part in pool.map(worker, args, chunksize=1) for sm in part]
     unknown_seen = {}
-    for start in range(0, len(cases), 1500):
-        chunk = cases[start:start + 1500]
-        results = []
-        for case in chunk:
-            res = observe(tb, case)
-            results.append(res)
-            ctx.count_eval()
-            bad = judge(ctx, tb, case, res)
-            cover_case(ctx, tb, case, res)
-            if res['fatal']:
-                tb.restore()
-            # all unknown names give the same configuration (same cell, different name)
-            if case.get('class') == 'unknown' and case['kind'].startswith('cell') and res['obs'] is not None \
-                    and not bad and not case['bits'][4]:
-                sig = (case['kind'], case['type'], case['sec'], tuple(case['bits']))
-                snap = strict(res['obs']['sections'])
-                prev = unknown_seen.setdefault(sig, (snap, case['syntax']))
-                if prev[0] != snap:
-                    ctx.property_failure(fail_key(case, 'unknown-syntax'),
-                                         'unknown-syntax: the unknown syntax names %r and %r give different configurations' % (
-                                             prev[1], case['syntax']),
-                                         {'component': 'config', 'case': case, 'why': ['differs from ' + repr(prev[1])]})
-        if model is None:
-            continue
-        wires, metas = [], []
-        for case, res in zip(chunk, results):
-            ids = case_ids(tb, case)
-            ty, syn = resolved_names(tb, case)
-            if case['kind'] == 'cell-fresh':
-                wires.append(wire_cell(case))
-                metas.append(('cell', case, res, ids, None))
-            else:
-                secs = [case['sec']] if case.get('sec') else list(SECTIONS)
-                wires.append(wire_init(tb, case, ids, secs))
-                metas.append(('init', case, res, ids, secs))
-            if case['kind'] in ('natural', 'random', 'corpus') and res['expected']:
-                # the SPEC's own answer for sampled keys
-                for sec in SECTIONS:
-                    ks = list(res['expected'][sec]) + ['zz.undefined']
-                    for key in rng.sample(ks, min(2, len(ks))):
-                        wires.append(wire_spec(tb, case, ids, ty, syn, sec, key))
-                        metas.append(('spec', case, res, ids, (sec, key)))
-        outs = model.run(wires)
-        for (kind, case, res, ids, extra), w in zip(metas, outs):
-            has_bad = bool(res['failures'])
-            if kind == 'spec':
-                n_spec += 1
-                sec, key = extra
-                e = res['expected'][sec].get(key)
-                want = [0] if e is None else [1, ids.id_of(e[0])]
-                if w != want:
-                    n_dis += 1
-                    ctx.say('DISAGREE config SPEC spec_lookup %s[%r] case %s: spec %r oracle %r' % (sec, key, json.dumps(case)[:300], w, want))
-                    ctx.broken.append({'kind': 'correspondence', 'file': 'config-spec-vs-oracle', 'input': json.dumps(case)[:600],
-                                       'impl': repr(want), 'model': repr(w)})
-                continue
-            n_cmp += 1
-            if kind == 'cell':
-                sec = case['sec']
-                r = Reader(w)
-                m = None if w == [-99] else rd_dict(r)
-                i = impl_ids(ids, res['obs'], [sec])
-                i = i['sections'][sec] if i else None
-            else:
-                m = decode_init(w, extra)
-                i = impl_ids(ids, res['obs'], extra)
-            if m is None or i != m:
+    wires, metas = [], []
+    for case, sm in zip(cases, sums):
+        ctx.count_eval()
+        bad = False
+        if sm['failures']:
+            bad = True
+            clause, text = sm['failures'][0]
+            ctx.property_failure(fail_key(case, clause), '%s: %s' % (clause, text),
+                                 {'component': 'config', 'case': case, 'why': [t for _, t in sm['failures']]})
+        cover_case(ctx, tb, case, sm)
+        # all unknown names give the same configuration (same cell, different name)
+        if sm['unknown_snap'] is not None and not bad:
+            sig = (case['kind'], case['type'], case['sec'], tuple(case['bits']))
+            prev = unknown_seen.setdefault(sig, (sm['unknown_snap'], case['syntax']))
+            if prev[0] != sm['unknown_snap']:
+                ctx.property_failure(fail_key(case, 'unknown-syntax'),
+                                     'unknown-syntax: the unknown syntax names %r and %r give different configurations' % (
+                                         prev[1], case['syntax']),
+                                     {'component': 'config', 'case': case, 'why': ['differs from ' + repr(prev[1])]})
+        if sm['model'] is not None:
+            wires.append(sm['model'][1])
+            metas.append(('main', case, sm, None))
+            for sp in sm['spec']:
+                wires.append(sp[2])
+                metas.append(('spec', case, sm, sp))
+    if model is None:
+        return
+    n_dis = n_cmp = n_spec = 0
+    outs = []
+    for start in range(0, len(wires), 4000):
+        outs += model.run(wires[start:start + 4000], procs=common.NPROC)
+    for (what, case, sm, sp), w in zip(metas, outs):
+        has_bad = bool(sm['failures'])
+        if what == 'spec':
+            n_spec += 1
+            sec, key, _, want = sp
+            if w != want:
                 n_dis += 1
-                if n_dis <= 5:
-                    ctx.say('DISAGREE config %s case %s\n  impl  %s\n  model %s' % (kind, json.dumps(case)[:400], diff_repr(i, m), ''))
-                if not has_bad:
-                    ctx.broken.append({'kind': 'correspondence', 'file': 'config-' + kind, 'input': json.dumps(case)[:600],
-                                       'impl': diff_repr(i, m)[:400], 'model': ''})
+                ctx.say('DISAGREE config SPEC spec_lookup %s[%r] case %s: spec %r oracle %r' % (sec, key, json.dumps(case)[:300], w, want))
+                ctx.broken.append({'kind': 'correspondence', 'file': 'config-spec-vs-oracle', 'input': json.dumps(case)[:600],
+                                   'impl': repr(want), 'model': repr(w)})
+            continue
+        n_cmp += 1
+        kind, _, secs, i = sm['model']
+        if kind == 'cell':
+            m = None if w == [-99] else rd_dict(Reader(w))
+        else:
+            m = decode_init(w, secs)
+        if m is None or i != m:
+            n_dis += 1
+            if n_dis <= 5:
+                ctx.say('DISAGREE config %s case %s\n  %s' % (kind, json.dumps(case)[:400], diff_repr(i, m)))
+            if not has_bad:
+                ctx.broken.append({'kind': 'correspondence', 'file': 'config-' + kind, 'input': json.dumps(case)[:600],
+                                   'impl': diff_repr(i, m)[:400], 'model': ''})
     c = ctx.cov['correspondence'].setdefault('config_' + label, {'cases': 0, 'disagreements': 0, 'spec_lookups': 0})
     c['cases'] += n_cmp
     c['disagreements'] += n_dis
@@ -752,37 +795,33 @@ def diff_repr(i, m):
     return 'differ at %r' % [(k, i.get(k, 'absent'), m.get(k, 'absent')) for k in sorted(ks)[:6]]
 
 
-def cover_case(ctx, tb, case, res):
+def cover_case(ctx, tb, case, sm):
     kind = case['kind']
     cls = case.get('class', '?')
     ctx.cover('%s:%s' % (kind, cls))
     ty, syn = resolved_names(tb, case)
     if kind.startswith('cell'):
         sec, key = case['sec'], case['key']
-        e = (res['expected'] or {}).get(sec, {}).get(key)
-        pat = e[2] if e else '000000'
+        pat = sm['cell_pat']
         ctx.cover('pattern:%s:%s' % (kind, pat))
         ctx.cover('section:%s:%s' % (ty, sec))
         if pat.count('1') >= 2:
             ctx.nontrivial((kind, ty, syn, sec, key, pat, tuple(case['bits'])))
-        if res['expand'] is not None:
-            ctx.cover('expand:%s:%s:%s' % (ty, sec, res['expand']['visible'] or res['expand']['out'][0]))
+        if sm['expand'] is not None:
+            ctx.cover('expand:%s:%s:%s' % (ty, sec, sm['expand']['visible'] or sm['expand']['out'][0]))
+        n = len(ctx.cov['samples'])
+        if (n < 6 and sum(case['bits']) >= 3 and cls != 'known' and n % 2 == (kind == 'cell-visible')) or \
+                (n < 10 and kind == 'cell-visible' and sum(case['bits']) >= 4 and ty == 'stylesheet'):
+            ctx.sample({'case': case, 'impl': sm['sample'], 'expand': sm['expand']['out'] if sm['expand'] else None}, limit=12)
     else:
         multi = 0
         for sec in SECTIONS:
-            for pat, n in (res['patterns'].get(sec) or {}).items():
+            for pat, n in (sm['patterns'].get(sec) or {}).items():
                 if pat.count('1') >= 2:
                     multi += n
         ctx.cover('%s:keys-defined-by->=2-layers' % kind, multi)
         if multi:
             ctx.nontrivial((kind, json.dumps(case, sort_keys=True)))
-    if len(ctx.cov['samples']) < 6 and kind.startswith('cell') and sum(case['bits']) >= 3 and cls != 'known':
-        ctx.sample({'case': case, 'impl': None if res['obs'] is None else
-                    {'type': res['obs']['type'], 'syntax': res['obs']['syntax'],
-                     case['sec'] + '[%r]' % case['key']: res['obs']['sections'][case['sec']].get(case['key'])},
-                    'expand': res['expand']['out'] if res['expand'] else None}, limit=12)
-    elif len(ctx.cov['samples']) < 9 and kind == 'cell-visible' and sum(case['bits']) >= 4 and res['expand']:
-        ctx.sample({'case': case, 'expand': res['expand']['out']}, limit=12)
 
 
 def run(ctx):
@@ -813,10 +852,11 @@ def run(ctx):
         'key (a real precedence decision); distinct by (type, syntax, section, key, subset) resp. by configuration.'
         % (sorted(k for k in tb.base['SYNTAX_CONFIG'] if not any(k in v for v in tb.base['SYNTAXES'].values())),
            UNKNOWN_NAMES, {'%s/%s' % k: v[:2] for k, v in VISIBLE.items()}, n_rand))
-    run_cases(ctx, tb, model, corpus, 'corpus')
-    run_cases(ctx, tb, model, table, 'table')
-    run_cases(ctx, tb, model, natural, 'natural')
-    run_cases(ctx, tb, model, rnd, 'random')
+    with multiprocessing.Pool(common.NPROC) as pool:
+        run_cases(ctx, tb, model, corpus, 'corpus', pool)
+        run_cases(ctx, tb, model, table, 'table', pool)
+        run_cases(ctx, tb, model, natural, 'natural', pool)
+        run_cases(ctx, tb, model, rnd, 'random', pool)
     if tb.modified_strict():
         ctx.property_failure('purity:tables-after-run', 'purity: the built-in tables differ (type-strict comparison) after the run',
                              {'component': 'config', 'case': None, 'why': ['strict snapshot differs']})
